@@ -397,9 +397,10 @@ def rule_r345(prog: Program, col: Collector) -> None:
     upd = [e for e in ft.of_kind("aug") if e.target == CR and e.op == "+"]
     clips = []
     for e in ft.of_kind("aug"):
-        if e.target == CR and e.op == "*" and e.value[0] == "cmp" and e.value[1] in (">", ">=") and e.value[3] == ("const", 0) \
-                and isinstance(e.node, ast.AugAssign) and isinstance(e.node.value, ast.Compare) \
-                and ast.unparse(e.node.value.left) == ast.unparse(e.node.target):
+        if e.target == CR and e.op == "*" and e.value[0] == "cmp" and e.value[1] in ("<", "<=") and e.value[2] == ("const", 0) \
+                and isinstance(e.node, ast.AugAssign) and isinstance(e.node.value, ast.Compare) and len(e.node.value.ops) == 1 \
+                and ast.unparse(e.node.target) == ast.unparse(e.node.value.left if isinstance(e.node.value.ops[0], (ast.Gt, ast.GtE))
+                                                              else e.node.value.comparators[0]):
             clips.append(e)
     for e in ft.of_kind("store"):
         if e.attr == "cumulative_regret" and e.obj == SELF and (is_call_to(e.value, "numpy.maximum", "numpy.clip")):
